@@ -105,6 +105,13 @@ def reference_draw(rec, data, block, kind, knobs, others, start, tape, n_steps):
     if kind == "ConjugateApprox" and block == "d" and shape == "x_d_lmrf":
         Dx = D_zero(n) @ v("x")
         return gamma_steps(tape, n + 1.0, float(np.sum(Dx ** 2 / np.sqrt(Dx ** 2 + 1e-5))) + 0.1, n_steps)
+    if kind == "Direct" and block == "w" and shape == "x_s_w":
+        # w ~ N(0, 0.7 I_2) independent of everything else: mean + e / sqrt-precision
+        np.random.set_state(tape)
+        w = None
+        for _ in range(n_steps):
+            w = np.sqrt(0.7) * np.random.randn(2, 1).ravel()
+        return w
     if kind == "LinearRTO" and block == "x":
         maxit, tol = knobs.get("maxit", 10), knobs.get("tol", 1e-6)
         I = np.eye(n)
